@@ -337,6 +337,16 @@ def resume_attempt(ctx, rng, servers, stored, W, r):
                 if su.prf == "sha384" else ["aes256gcm"]
             inconsistent = "suite13"
     ss = srv.settings(ver)
+    ext_psk = False
+    if inconsistent == "suite13" and rng.random() < 0.6:
+        # both sides also hold an external PSK (of the hash on offer): the
+        # connection is keyed by it, which is not a resumption of the
+        # session whose ticket was passed over
+        ext = (creds.PSK_ID, creds.PSK_SECRET,
+               "sha256" if "aes128gcm" in cs.cipherNames else "sha384")
+        cs.pskConfigs = [ext]
+        ss.pskConfigs = [ext]
+        ext_psk = True
     fl = Flavor("cert", skey="rsa", ckey=r.ckey, req_cert=bool(r.ckey),
                 cset=cs, sset=ss, session_cache=srv.cache, session=s2,
                 sni=sni)
@@ -463,6 +473,15 @@ def resume_attempt(ctx, rng, servers, stored, W, r):
         ctx.violation(dict(key, clause="resumed_flag_disagree",
                            client=cres, server=sres), W2,
                       "client.resumed=%s server.resumed=%s" % (cres, sres))
+    if ext_psk and both:
+        ctx.count("ticket_passed_over_for_external_psk")
+        chain = p.s.session.clientCertChain
+        if chain is not None and chain.getNumCerts():
+            ctx.violation(dict(key, clause="identity_carried_without_"
+                               "resumption"), W2,
+                          "the server attributes the passed-over ticket's "
+                          "client certificate to a connection keyed by an "
+                          "external PSK")
     resumed = both and (cres or sres)
     if resumed and must_not and not dont_care and client_will_offer:
         ctx.violation(dict(key, clause="resumed_must_not", reason=reason0),
@@ -556,7 +575,8 @@ def resume_attempt(ctx, rng, servers, stored, W, r):
             nr.ems = bool(p.c.session.extendedMasterSecret)
             nr.etm = bool(p.c.session.encryptThenMAC)
             nr.sni = sni
-            nr.ckey = r.ckey
+            # (a connection keyed by an external PSK shows no certificates)
+            nr.ckey = None if ext_psk else r.ckey
             nr.sid = bytes(p.c.session.sessionID or b"")
             if inconsistent == "suite13" or getattr(r, "cipher_names", None):
                 nr.cipher_names = list(cs.cipherNames)
